@@ -89,6 +89,8 @@ pub struct Trace {
     /// scoped reads / definitions on a node that shares its byte range with its parent
     pub same_range_touched: u64,
     pub scoped_defs: u64,
+    /// executed definitions of plain (unscoped) variables by let / var / node statements
+    pub plain_defs: u64,
     pub calls: u64,
     pub max_depth: usize,
     /// matches per stanza
@@ -134,6 +136,9 @@ pub struct Interp<'a> {
     pub graph: MGraph,
     pub trace: Trace,
     pub prints: u64,
+    /// for a failure "scoped variable defined twice": the statement that defined it first
+    pub conflict_with: Option<Id>,
+    scoped_def_stmt: BTreeMap<(usize, String), Id>,
     scoped: BTreeMap<(usize, String), (CVal, bool, Id)>,
     inherited: BTreeSet<String>,
     shorthand_count: usize,
@@ -299,6 +304,8 @@ impl<'a> Interp<'a> {
             graph,
             trace: Trace::default(),
             prints: 0,
+            conflict_with: None,
+            scoped_def_stmt: BTreeMap::new(),
             scoped: BTreeMap::new(),
             inherited: prog.inherited().iter().map(|s| s.to_string()).collect(),
             shorthand_count: prog.shorthand_count(),
@@ -649,15 +656,20 @@ impl<'a> Interp<'a> {
                     return self.err(ErrKind::DuplicateVariable, format!("{} already defined in this block", name), env);
                 }
                 frame.insert(name.clone(), (value, mutable));
+                self.trace.plain_defs += 1;
                 Ok(())
             }
             VarRef::Scoped { id, scope, name } => {
                 let node = self.scope_node(scope, env)?;
                 let key = (node, name.clone());
                 if self.scoped.contains_key(&key) {
+                    self.conflict_with = self.scoped_def_stmt.get(&key).copied();
                     return self.err(ErrKind::DuplicateVariable, format!("{} already defined on node {}", name, node), env);
                 }
                 self.trace.scoped_defs += 1;
+                if let Some(stmt) = env.site.path.last() {
+                    self.scoped_def_stmt.insert(key.clone(), *stmt);
+                }
                 self.scoped.insert(key, (value, mutable, *id));
                 Ok(())
             }
